@@ -223,6 +223,18 @@ func replay(class string, raw json.RawMessage) (string, bool) {
 			desc += "\n" + o.Class + ": " + o.Msg
 		}
 		return desc, o.Bad
+	case "cross":
+		other := kIndividual
+		if k == kIndividual {
+			other = kGroup
+		}
+		_, a1, _, _ := judgeParse(other, in.Text)
+		v, accepted, got, o := judgeParse(k, in.Text)
+		desc := fmt.Sprintf("%s(%q) accepted=%v, then %s(%q): reference=%s %s value=%d; library accepted=%v value=%d", parserName(other), in.Text, a1, parserName(k), in.Text, v.Kind, v.Reason, v.Value, accepted, got)
+		if o.Bad {
+			desc += "\n" + o.Class + ": " + o.Msg
+		}
+		return desc, o.Bad
 	case "roundtrip":
 		s, o := judgeRoundTrip(k, uint16(in.Value))
 		desc := fmt.Sprintf("%s address %d -> %q", k, in.Value, s)
@@ -261,6 +273,7 @@ func (c *ctx) mergeUncl(m map[string]int64) {
 func run(r *enumlib.Run) {
 	c := &ctx{r: r, uncl: map[string]int64{}}
 	c.roundTrip()
+	c.crossParser()
 	c.tuples()
 	c.farValues()
 	c.constructors()
@@ -355,6 +368,45 @@ func (c *ctx) roundTrip() {
 		c.r.Space("roundtrip-"+k.String(), 65535, 65535, true, "every non-zero 16-bit value: String() -> "+parserName(k)+" -> same value")
 	}
 	c.r.Extra("string_is_three_level_form", fmt.Sprintf("%d of 131070 String() results equal the documented three-level text (counted, not judged)", same3))
+}
+
+// (1b) both parsers on the same text, in both orders ------------------------------------------
+//
+// A result must not depend on which parser saw the text before (a shared parse cache, a shared
+// scratch buffer): every String() text of either kind is given to its own parser and then to the
+// other kind's, and - for the texts of odd values - the other way round; each answer is judged by
+// the reference grammar.
+func (c *ctx) crossParser() {
+	var nontriv int64
+	for _, k := range []kind{kGroup, kIndividual} {
+		k := k
+		other := kIndividual
+		if k == kIndividual {
+			other = kGroup
+		}
+		c.r.Parallel(func(shard, n int) {
+			var nt int64
+			for v := 1 + shard; v <= 65535; v += n {
+				text, _, _ := callString(k, uint16(v))
+				order := []kind{k, other}
+				if v&1 == 1 {
+					order = []kind{other, k}
+				}
+				for _, pk := range order {
+					rv, _, _, o := judgeParse(pk, text)
+					if o.Bad {
+						c.r.Violation(o.Class, o.Msg+fmt.Sprintf(" (history: the text was given to %s and then to %s)", parserName(order[0]), parserName(order[1])), input{Op: "cross", Kind: pk.String(), Text: text, Value: v})
+					} else if rv.Kind != "unclassified" {
+						nt++
+					}
+				}
+			}
+			atomic.AddInt64(&nontriv, nt)
+		})
+	}
+	c.r.Eval(4 * 65535)
+	c.r.Nontrivial(nontriv)
+	c.r.Space("cross-parser", 4*65535, nontriv, true, "every String() text of either kind given to both parsers one after the other (own parser first for even values, the other kind's first for odd values); each answer judged by the reference grammar")
 }
 
 // (2) component tuples over the documented ranges widened by a margin --------------------------
